@@ -84,6 +84,7 @@ def gen_rt(seed, shard, nb, nr):
             ev["back"] = fx(Epoch(y, m, d, h, mi, s).jde())
             ev["bok"] = 1
         except Exception as ex:
+            ev.setdefault("unch", 1)
             ev["exc"] = type(ex).__name__
         yield ev
 
